@@ -24,7 +24,7 @@ import (
 func TestC03(t *testing.T) {
 	R := ev.New("C03")
 	R.Rule = "attack command: (-workers, -max-workers) in {(unset,2),(10,2),(6,3),(1,2),(2,2),(unset,4),(1,6),(3,1)} as real in-process attacks over a lazy targets file of max-workers+4 lines against a blocking local server; distinct+non-trivial = combinations where -workers is unset or differs from -max-workers"
-	R.Assume("loopback HTTP (httptest); the only wall-clock element is a 30 s deadline after which a combination that has not filled max-workers is reported; 50 ms of continued pacing after the pool is full to observe an overshoot")
+	R.Assume("loopback HTTP (httptest); the only wall-clock element is a one-minute deadline after which a combination that has not filled max-workers is reported; 50 ms of continued pacing after the pool is full to observe an overshoot")
 	dir := t.TempDir()
 	for ci, c := range [][2]string{{"", "2"}, {"10", "2"}, {"6", "3"}, {"1", "2"}, {"2", "2"}, {"", "4"}, {"1", "6"}, {"3", "1"}} {
 		var m int
@@ -71,7 +71,7 @@ func TestC03(t *testing.T) {
 			time.Sleep(50 * time.Millisecond)
 		case err = <-done:
 			ended = true
-		case <-time.After(30 * time.Second):
+		case <-time.After(time.Minute):
 		}
 		mu.Lock()
 		seen := max
